@@ -97,6 +97,18 @@ def main():
             extra = mod.driver_steps(a.tier, a.seed, merged) or {}
         except verdict.Inconclusive as e:
             problems.append(f"driver step: {e}")
+    if merged is not None and getattr(mod, "PYTEST_PREFIX", None) and not os.environ.get("VERIF_NO_REPO_TESTS"):
+        # the repository's own tests as one more workload, with this property's single-call contracts switched on
+        from . import contracts_on_tests
+
+        try:
+            pt = contracts_on_tests.run(mod.PYTEST_PREFIX)
+            extra.setdefault("violations", []).extend(pt.pop("violations"))
+            for k, v in pt.pop("evals").items():
+                extra.setdefault("evals", {})[k] = v
+            extra.update(pt)
+        except (verdict.Inconclusive, Exception) as e:  # noqa: BLE001
+            problems.append(f"repo tests under contracts: {e!r}"[:400])
         for v in extra.pop("violations", []):
             merged["violations"].append(v)
             merged["nviol"] += 1
@@ -223,7 +235,18 @@ def replay(mod, check, path, known):
     ctx.replaying = True
     if hasattr(mod, "setup"):
         mod.setup(ctx)
-    mod.PROBES[v["kind"]](ctx, v["payload"])
+    if v["kind"] == "pytest":
+        # witness came from the repository's own tests run under contracts: re-run them
+        from . import contracts_on_tests
+
+        pt = contracts_on_tests.run(mod.PYTEST_PREFIX)
+        for k, n in pt["evals"].items():
+            ctx.ev(k, n)
+        for x in pt["violations"]:
+            ctx.violations.append(x)
+            ctx.nviol += 1
+    else:
+        mod.PROBES[v["kind"]](ctx, v["payload"])
     print(f"replayed {path}: {sum(ctx.evals.values())} monitor evaluations, {ctx.nviol} violations; tree={REPO}")
     newv = [x for x in ctx.violations if verdict.classify(x, known) is None]
     for x in ctx.violations:
